@@ -12,7 +12,8 @@
 //!   char list  S:<cps>            (pipeline: S:<iter cps>,len=<get_char_list_len>,items=<cps via get_char_list_item>)
 //!   byte list  Y:<bytes>          (pipeline: same shape)
 //!   symbol     M:<name cps>,sym=<u64 hex>
-//!   Err (direct) | LexErr | NotLit(<n tokens>,<type of first>) | ParseErr | BuildErr | RunErr | Type(<t>) | PANIC | HANG
+//!   Err (direct) | LexErr | NotLit(<n tokens>,<type of first>) | ParseErr | BuildErr | RunErr | Type(<t>) | PANIC
+//!   (a case that hangs or kills the process is reported by lib.rs `supervised` as <case>\tHANG\t- / <case>\tCRASH\t-)
 //! Oracle: N: f64:<cps>=<bits|ERR>,...  (str::parse::<f64> of the candidate stripped strings)
 //!         B: num:<cps of the non-ASCII characters for which char::is_numeric holds>
 //!         S: sym=<symbol_value(name)>
@@ -27,9 +28,6 @@ use garnish_lang_simple_data::{
 };
 use garnish_lang_traits::{Extents, GarnishData, GarnishDataType};
 use garnish_verif_harness::*;
-use std::io::{self, BufRead, Write};
-use std::sync::mpsc;
-use std::time::Duration;
 
 fn dec_cps(s: &str) -> String {
     if s == "-" {
@@ -271,56 +269,13 @@ fn spell(line: &str) -> String {
     format!("{}\t{}\t{}", line, enc_cps(format!("{}", f).chars()), enc_cps(format!("{:?}", f).chars()))
 }
 
-fn start_worker() -> (mpsc::Sender<String>, mpsc::Receiver<String>) {
-    let (tx_case, rx_case) = mpsc::channel::<String>();
-    let (tx_res, rx_res) = mpsc::channel::<String>();
-    let _ = std::thread::Builder::new().stack_size(16 << 20).spawn(move || {
-        while let Ok(l) = rx_case.recv() {
-            let r = catch(|| run_case(&l)).unwrap_or_else(|_| format!("{}\tD=PANIC;S=PANIC;B=PANIC\t-", l));
-            if tx_res.send(r).is_err() {
-                break;
-            }
-        }
-    });
-    (tx_case, rx_res)
-}
-
 fn main() {
     quiet_panics();
-    let spell_mode = std::env::args().any(|a| a == "--spell");
-    let stdin = io::stdin();
-    let stdout = io::stdout();
-    let mut out = io::BufWriter::new(stdout.lock());
-    let mut leaked = 0;
-    let mut worker: Option<(mpsc::Sender<String>, mpsc::Receiver<String>)> = None;
-    for line in stdin.lock().lines() {
-        let line = line.expect("read");
-        if line.is_empty() {
-            continue;
-        }
-        if spell_mode {
-            writeln!(out, "{}", spell(&line)).expect("write");
-            continue;
-        }
-        if leaked >= 8 {
-            writeln!(out, "{}\tD=SKIP;S=SKIP;B=SKIP\t-", line).expect("write");
-            continue;
-        }
-        // watchdog: cases run in a worker thread; when one misses its deadline the
-        // worker is abandoned (it cannot be killed) and a fresh one is started
-        if worker.is_none() {
-            worker = Some(start_worker());
-        }
-        let (tx, rx) = worker.as_ref().unwrap();
-        let sent = tx.send(line.clone()).is_ok();
-        match if sent { rx.recv_timeout(Duration::from_secs(5)).ok() } else { None } {
-            Some(r) => writeln!(out, "{}", r).expect("write"),
-            None => {
-                leaked += 1;
-                worker = None;
-                writeln!(out, "{}\tD=HANG;S=HANG;B=HANG\t-", line).expect("write")
-            }
-        }
+    if std::env::args().any(|a| a == "--spell") {
+        for_each_line(spell);
+        return;
     }
-    out.flush().expect("flush");
+    // every case runs in a supervised child process with a deadline: a case that
+    // does not answer is reported as `<case>\tHANG\t-`, a dead child as `<case>\tCRASH\t-`
+    supervised(5000, |line| catch(|| run_case(line)).unwrap_or_else(|_| format!("{}\tD=PANIC;S=PANIC;B=PANIC\t-", line)));
 }
